@@ -1,0 +1,21 @@
+//go:build verif
+
+// Contracts for the fvc verification-condition generator in /verif (comment-only file; it adds no
+// code to the package and is only seen with -tags verif).
+
+package rewrite
+
+//@ props C01
+
+//@ func Config.Next assumed pure
+//@ func captureTokens assumed pure
+//@ func @strings.(*Replacer).Replace assumed pure
+//@ func @fiber.Ctx.RestartRouting(recv) assumed
+//@   modifies heap
+
+// After overriding the path the middleware hands on to the REST of the chain (the later-registered routes
+// that match the new path): exactly one c.Next(), never a restart of the routing from the first route.
+//@ func New$1
+//@   requires fresh-activation: nextCalls == 0
+//@   ensures continues-with-the-rest-of-the-chain: nextCalls == 1
+//@   ensures never-restarts-routing: !called(@fiber.Ctx.RestartRouting)
